@@ -69,3 +69,7 @@ impl RangeBounds<Key> for RangeFromExclusive {
         item > &self.start
     }
 }
+
+#[cfg(kani)]
+#[path = "/verif/units/kani/beatree_index.rs"]
+mod verif_kani;
